@@ -164,11 +164,28 @@ pub fn scenarios(tier: Tier) -> Vec<Scenario> {
 pub enum Case {
     /// a forked client connects, sends n messages and exits before accept is called
     ExitedClient { n: usize, big_every: usize },
+    /// like ExitedClient, but the client is a separately exec'ed process
+    SpawnedClient { n: usize, big_every: usize },
     /// n servers alive at once: names distinct, every one usable or droppable, nothing left
     ManyServers { n: usize, accept_every: usize },
     DroppedUnused { with_connected_client: bool },
     /// a child exec'ed while a server (and a connected client) is alive must not inherit the rendezvous
     ExecWhileAlive,
+}
+
+/// body of the exec'ed client process (`vcheck --oneshot-client <name> <n> <big_every>`)
+pub fn client_main(name: &str, n: usize, big_every: usize) -> i32 {
+    // same effective packet size as in the server's process, so that "2-packet" means the same
+    interpose::activate(&Cfg { fake_sndbuf: Some(4608), ..Default::default() });
+    let Ok(tx) = IpcSender::<Msg>::connect(name.to_string()) else { return 5 };
+    let mut keep = Vec::new();
+    for i in 0..n {
+        let sz = if big_every > 0 && i % big_every == big_every - 1 { Sz::L2 } else { Sz::S };
+        if tx.send(mk(i, sz, i == 1, &mut keep)).is_err() {
+            return 7;
+        }
+    }
+    0
 }
 
 fn e2_body(c: &Case) -> Result<(), String> {
@@ -210,6 +227,27 @@ fn e2_body(c: &Case) -> Result<(), String> {
             match rx.recv() {
                 Err(IpcError::Disconnected) => {},
                 other => return Err(format!("exited client: {:?} instead of disconnected", other.map(|_| "a message"))),
+            }
+        },
+        Case::SpawnedClient { n, big_every } => {
+            let (server, name) = IpcOneShotServer::<Msg>::new().map_err(|e| e.to_string())?;
+            let st = interpose::harness(|| {
+                std::process::Command::new("/proc/self/exe").args(["--oneshot-client", &name, &n.to_string(), &big_every.to_string()]).status()
+            })
+            .map_err(|e| format!("cannot spawn the client: {}", e))?;
+            if !st.success() {
+                return Err(format!("the spawned client could not connect and send before accept ({:?})", st.code()));
+            }
+            let (rx, first) = server.accept().map_err(|e| format!("accept after the spawned client exited: {}", e))?;
+            after_accept_clean(&root, 0)?;
+            check_msg(0, first, false)?;
+            for i in 1..*n {
+                let m = rx.recv().map_err(|e| format!("message #{} of a spawned client lost: {:?}", i, e))?;
+                check_msg(i, m, i == 1)?;
+            }
+            match rx.recv() {
+                Err(IpcError::Disconnected) => {},
+                other => return Err(format!("spawned client: {:?} instead of disconnected", other.map(|_| "a message"))),
             }
         },
         Case::ManyServers { n, accept_every } => {
@@ -280,6 +318,9 @@ fn e2_cases(tier: Tier) -> Vec<Case> {
     for n in 1..=maxn {
         for big_every in [0usize, 2, 3] {
             v.push(Case::ExitedClient { n, big_every });
+            if n <= 3 || !tier.is_quick() {
+                v.push(Case::SpawnedClient { n, big_every });
+            }
         }
     }
     let ns: Vec<usize> = if tier.is_quick() { vec![1, 2, 50] } else { vec![1, 2, 3, 10, 50, 100, 200] };
@@ -306,7 +347,7 @@ pub fn run(tier: Tier, _part: bool) -> i32 {
         n += 1;
         match super::describe(out) {
             Ok(_) => {},
-            Err(e) if e.starts_with("MACHINERY") => rep.machinery(e),
+            Err(e) if e.starts_with("MACHINERY") => rep.machinery(format!("{} :: {:?}", e, c)),
             Err(e) => fails.push((c.clone(), e)),
         }
     });
@@ -318,8 +359,8 @@ pub fn run(tier: Tier, _part: bool) -> i32 {
     rep.set("evaluations", json!(tot.execs + n));
     rep.set("distinct_nontrivial", json!(tot.with_switch + n));
     rep.set("deviation_bound", json!(tot.max_bound));
-    rep.set("rule", json!("E1: one evaluation = one schedule (<= bound deviations) of a server task (new, accept) and a client task (connect, 1-3 messages of mixed size, optionally one with sender+region, drop): accept-first, connect-first, sends before accept and client finished before accept all arise as schedules; with a fake or a kernel-enforced 4608-byte send buffer (the client then blocks until the server drains). E2: forked client that exits before accept with 1..5 (20) messages queued, 1..50 (200) servers alive at once (names distinct; accepted or dropped), server dropped unused with and without a connected client; after accept / drop the temp root must be empty and no listening descriptor open"));
-    rep.assume("client as a spawned (exec'ed) process is covered by C11's exec check (close-on-exec at creation), not re-executed here");
+    rep.set("rule", json!("E1: one evaluation = one schedule (<= bound deviations) of a server task (new, accept) and a client task (connect, 1-3 messages of mixed size, optionally one with sender+region, drop): accept-first, connect-first, sends before accept and client finished before accept all arise as schedules; with a fake or a kernel-enforced 4608-byte send buffer (the client then blocks until the server drains). E2: forked client and separately exec'ed client that exit before accept with 1..5 (20) messages queued, 1..50 (200) servers alive at once (names distinct; accepted or dropped), server dropped unused with and without a connected client; after accept / drop the temp root must be empty and no listening descriptor open"));
+    rep.assume("the spawned (exec'ed) client is the harness binary itself in a client mode");
     rep.finish()
 }
 
